@@ -53,6 +53,19 @@ def knot_vector(rng, p, n, cls='random', lohi=(0.0, 1.0), fine=False):
                 ks.append(x)
         ks.sort()
         base = [0.0] * (p + 1) + ks + [1.0] * (p + 1)
+    elif cls == 'jump':
+        # clamped, one interior knot of multiplicity p + 1 (the shape is discontinuous there) when there is room, otherwise 'random'
+        if m >= p + 1:
+            v = round(rng.uniform(0.3, 0.7), 2)
+            rest = interior_knots(rng, p, m - p - 1, fine=False) if m - p - 1 > 0 else []
+            rest = [k for k in rest if abs(k - v) > 1e-3]
+            while len(rest) < m - p - 1:
+                x = round(rng.uniform(0.05, 0.95), 3)
+                if abs(x - v) > 1e-3:
+                    rest.append(x)
+            base = [0.0] * (p + 1) + sorted(rest + [v] * (p + 1)) + [1.0] * (p + 1)
+        else:
+            base = [0.0] * (p + 1) + interior_knots(rng, p, m, fine=fine) + [1.0] * (p + 1)
     elif cls == 'unclamped':
         tot = n + p + 1
         base = [float(i) / (tot - 1) for i in range(tot)]
@@ -282,7 +295,7 @@ def defn_of_snapshot(s):
     return ref.Shape(s['degrees'], s['kvs'], s['sizes'], {k: s['hom'][f] for k, f in idx.items()}, s['rational'])
 
 
-def param_classes(rng, p, U, nrand=4, near_start=False):
+def param_classes(rng, p, U, nrand=4, near_start=False, ulp=False):
     """list of (tag, u) over the domain of (p, U): both ends, every distinct interior knot, span midpoints,
     randoms. U as stored by the object."""
     n = len(U) - p - 1
@@ -299,6 +312,13 @@ def param_classes(rng, p, U, nrand=4, near_start=False):
         u = rng.uniform(a, b)
         if all(abs(u - k) >= 1e-3 * (b - a) or u == k for k in d):
             out.append(('rand', u))
+    if ulp:
+        # one ulp either side of every interior knot (still inside the domain): the span decision must be exact there
+        import math as _m
+        for k in inner:
+            for nb in (_m.nextafter(k, -_m.inf), _m.nextafter(k, _m.inf)):
+                if a < nb < b:
+                    out.append(('knot_ulp', nb))
     if near_start:
         for lo_, hi_ in ((0, 1e-4), (1e-4, 1e-2)):
             u = a + (b - a) * rng.uniform(lo_, hi_)
@@ -307,11 +327,11 @@ def param_classes(rng, p, U, nrand=4, near_start=False):
     return out
 
 
-def param_tuples(rng, o, count=8, mode='mixed'):
+def param_tuples(rng, o, count=8, mode='mixed', ulp=False):
     """list of (tags, param tuple) for an object with pdim directions."""
     degs = degrees_of(o)
     kvs = kvs_of(o)
-    per = [param_classes(rng, p, U) for p, U in zip(degs, kvs)]
+    per = [param_classes(rng, p, U, ulp=ulp) for p, U in zip(degs, kvs)]
     out = []
     # corners
     out.append((('start',) * len(per), tuple(pc[0][1] for pc in per)))
